@@ -719,6 +719,46 @@ func c17(r *hx.Run) {
 			}
 		}
 	}
+	// (d') event logs of sizes around powers of two up to 16 MiB (harness-only: too large for the line protocol): the digest that
+	// reaches the TSM is the SHA-384 of the WHOLE log — two logs that differ in their last byte only extend different values
+	if !c17Hung {
+		for _, n := range []int{1 << 16, 1<<20 - 1, 1 << 20, 1<<20 + 1, 1<<21 + 17, 1<<24 + 5} {
+			if n > 1<<22 && r.Tier != "thorough" && n != 1<<24+5 {
+				continue
+			}
+			log := hx.RandBytes(rng, n)
+			for _, lastByte := range []byte{log[n-1], log[n-1] ^ 0x01} {
+				l := append([]byte{}, log...)
+				l[n-1] = lastByte
+				h := sha512.Sum384(l)
+				t := newC17Tsm()
+				idx := int(rng.UintN(4))
+				var err error
+				res, stack := hx.GuardTimeout(60*time.Second, func() string { err = rtmr.ExtendEventLogClient(t, idx, crypto.SHA384, l); return "" })
+				var written [][]byte
+				for _, op := range t.ops {
+					if op.kind == "wf" && op.attr == "digest" {
+						written = append(written, op.data)
+					}
+				}
+				obs, fail := fmt.Sprintf("digest-writes=%d err=%d", len(written), hx.B(err != nil)), ""
+				switch {
+				case res == "panic":
+					fail = "crash: " + strings.SplitN(stack, "\n", 2)[0]
+				case res == "hang":
+					fail = "the request did not return within 60 s"
+					c17Hung = true
+				case err != nil:
+					fail = fmt.Sprintf("a valid request (index %d, SHA-384, event log of %d bytes) failed: %v", idx, n, err)
+				case len(written) != 1:
+					fail = fmt.Sprintf("a valid request performed %d digest writes", len(written))
+				case !bytes.Equal(written[0], h[:]):
+					fail = fmt.Sprintf("the digest extended for an event log of %d bytes is not the SHA-384 of the log", n)
+				}
+				r.Emit(fmt.Sprintf("# C17.biglog n=%d last=%02x idx=%d", n, lastByte, idx), obs, fail, fmt.Sprintf("biglog|%d|%02x", n, lastByte), true, "biglog")
+			}
+		}
+	}
 	// (e) a TSM whose digest write stalls for 2.5 s and then completes (the attribute write ends in a TDCALL): the caller
 	// carries on with the same register afterwards.  Once everything is quiet, the digest writes the TSM saw are exactly the
 	// digests of the requests that returned success, in call order — a request that returned an error is not extended later,
